@@ -486,6 +486,27 @@ def chain_start(src, j, lo):
         raise LostAnchor(f"{src.path}:{src.line_of(t.start)}: unsupported expression shape in front of a cast/timeout")
 
 
+def auto_try(src, lo, hi, edits, stats):
+    """R16 at every site (`try_all=1`): each `<operand>?` on a Result in toks[lo:hi] that is not inside a closure is replaced by
+    the desugaring of `?` from the Rust reference.  Sites whose operand shape the generator does not parse are left as they are
+    (the built-in `?` stays - sound, the prover only knows less about the error value)."""
+    toks = src.toks
+    inside = [(c[2], c[3]) for c in find_closures(src, lo, hi)]
+    for i in range(lo, hi):
+        if toks[i].text != "?" or any(a <= i <= b for a, b in inside):
+            continue
+        try:
+            a = chain_start(src, i - 1, lo)
+        except LostAnchor:
+            continue
+        # an operand that itself contains a `?` (a?.b()?): only the inner one is rewritten
+        if any(toks[q].text == "?" for q in range(a, i)):
+            continue
+        edits.add(toks[a].start, toks[a].start, "(match ", "R16", "`?` desugared")
+        edits.add(toks[i].start, toks[i].end, " { Ok(__v) => __v, Err(__e) => return Err(From::from(__e)) })", "R16", "")
+        stats["R16"] = stats.get("R16", 0) + 1
+
+
 def rewrite_casts(src, lo, hi, edits, stats):
     """R19: `EXPR as <integer type>` -> `(#[verifier::truncate] (EXPR as <integer type>))`.  Rust defines every integer `as`
     cast (truncation / two's complement reinterpretation); Verus leaves an out-of-range cast unspecified unless it carries this
@@ -812,6 +833,8 @@ def gen_fn(repo, d, body, report):
                       f"`{sub['args'][0]}` => `{sub['args'][1]}`")
             stats[o.get("rule", "REWRITE")] = stats.get(o.get("rule", "REWRITE"), 0) + 1
     rewrite_for_loops(src, f["body_open"] + 1, f["body_close"], edits, stats, d.get("incl_ranges") == "1", d.get("for_names") == "1", d.get("range_as_while") == "1")
+    if d.get("try_all") == "1":
+        auto_try(src, f["body_open"] + 1, f["body_close"], edits, stats)
     for sub in subs:
         if sub["kind"] == "after_loop":
             # ghost text directly after loop k as a whole (structural anchor; added after R4 so that it follows the closers R4 appends)
@@ -1028,7 +1051,28 @@ def gen_fragment(repo, d, body, report):
         a0 = f["body_open"] + 1          # structural anchor: the first statement of the function body
     else:
         a0, _ = src.find_seq(f["body_open"] + 1, f["body_close"], d["from"], int(d.get("from_nth", 1)))
-    if d["to"].startswith("@loop_body_end"):
+    if d["to"].startswith("@stmt_end"):
+        want_n = int(d["to"].split()[1]) if len(d["to"].split()) > 1 else 1
+        # structural anchor: the `;` that ends the statement the fragment starts with (the `from` text is then only the
+        # statement's head, e.g. `let start_time =`, and the expression behind it may change freely)
+        dpt = 0
+        b1 = None
+        for q in range(a0, f["body_close"]):
+            x = toks[q].text
+            if x in "([{":
+                dpt += 1
+            elif x in ")]}":
+                dpt -= 1
+                if dpt < 0:
+                    break
+            elif x == ";" and dpt == 0:
+                want_n -= 1
+                if want_n == 0:
+                    b1 = q
+                    break
+        if b1 is None:
+            raise LostAnchor(f"fragment {d['name']}: no statement end after the start anchor")
+    elif d["to"].startswith("@loop_body_end"):
         # structural anchor: the last statement of the body of loop <k> of the function (ordinal among all its loops)
         k = int(d["to"].split()[1])
         fl = src.loops_in(f["body_open"] + 1, f["body_close"])
@@ -1095,6 +1139,8 @@ def gen_fragment(repo, d, body, report):
             edits.add(toks[a].start, toks[b].end, sub["args"][1], o.get("rule", "REWRITE"),
                       f"`{sub['args'][0]}` => `{sub['args'][1]}`")
     rewrite_for_loops(src, a0, b1 + 1, edits, stats)
+    if d.get("try_all") == "1":
+        auto_try(src, a0, b1 + 1, edits, stats)
     entry_text = ""
     for sub in subs:
         if sub["kind"] == "after_loop":
